@@ -835,7 +835,23 @@ class Body:
             return None
         ds = self.defs(d["pl"]["l"])
         if len(ds) == 1 and ds[0][1] == "rv" and ds[0][2].get("k") == "discr":
-            return ds[0][2].get("variant_names")
+            names, vals = ds[0][2].get("variant_names"), ds[0][2].get("variant_discrs")
+            if not names or not vals or len(names) != len(vals):
+                return None
+            # by the value the switch tests (a negative discriminant shows as its two's complement in the enum's tag width)
+            out = {}
+            for nme, v in zip(names, vals):
+                try:
+                    v = int(v)
+                except ValueError:
+                    return None
+                out[v] = nme
+                for bits in (8, 16, 32, 64):
+                    if v >= (1 << (bits - 1)):
+                        out[v - (1 << bits)] = nme      # stored unsigned, seen signed
+                    if v < 0:
+                        out[v + (1 << bits)] = nme
+            return out
         return None
 
 
@@ -1141,7 +1157,7 @@ def _body_facts(self):
                 if c[0] == 'discr':
                     rel = ('discr', deep_strip(c[1]), truth)
                     vn = self.variant_names_of_switch(bb)
-                    if vn and isinstance(truth, int) and 0 <= truth < len(vn):
+                    if vn and isinstance(truth, int) and truth in vn:
                         facts.append({"u": bb, "v": tgt, "rel": ('variant', deep_strip(c[1]), vn[truth])})
                     # `match a.cmp(&b) { Less | Equal | Greater }`: the variant of the Ordering IS the comparison
                     oc = deep_strip(c[1])
